@@ -138,8 +138,12 @@ func (s *sandboxes) next() string {
 	s.n++
 	k := s.n
 	s.mu.Unlock()
-	d := filepath.Join(s.work, fmt.Sprintf("s%03d", k%512), fmt.Sprintf("c%d", k))
-	if err := os.MkdirAll(d, 0o777); err != nil {
+	parent := filepath.Join(s.work, fmt.Sprintf("s%03d", k%512))
+	if err := os.MkdirAll(parent, 0o777); err != nil {
+		vutil.Fatalf("mkdir %s: %v", parent, err)
+	}
+	d := filepath.Join(parent, fmt.Sprintf("c%d", k))
+	if err := os.Mkdir(d, 0o777); err != nil { // must be new: a sandbox never starts from leftovers
 		vutil.Fatalf("mkdir %s: %v", d, err)
 	}
 	return d
